@@ -705,7 +705,11 @@ class MRT(MisoBase):
             The precoder that can be applied to the input data.
         """
         Nt = channel.shape[1]
-        W = np.exp(-1j * np.angle(channel)).T / math.sqrt(Nt)
+        # Note: the phases are computed from a complex128 copy. For a channel
+        # stored with a narrow integer type `np.angle` would work (and
+        # return) in half or single precision.
+        phases = np.angle(np.asarray(channel, dtype=complex))
+        W = np.exp(-1j * phases).T / math.sqrt(Nt)
         return W
 
     @staticmethod
